@@ -121,6 +121,15 @@ GARBAGE = [[8, -7, 29, 1], [-8, 8, -32, 2], [5, 3, 17, 0], [-1, -6, -11, 1],
 
 # ------------------------------------------------------ losses under test
 
+def _nan_on_zero_rows(batch):
+  """0 on every real row, NaN on an all-zero padding row -- for batches that
+  carry the feature 'one' (1 on real rows; see client_dataset): a per-example
+  loss need not be finite where there is no example (log x, 1/x, ...)."""
+  if 'one' in batch:
+    return 0.0 * jnp.log(batch['one'])
+  return 0.0
+
+
 def _ls_forward(params, batch):
   return batch['x'] @ params['w'] + params['b']
 
@@ -128,7 +137,7 @@ def _ls_forward(params, batch):
 def _ls_loss(params, batch, rng):
   del rng
   r = _ls_forward(params, batch) - batch['y']
-  return r * r
+  return r * r + _nan_on_zero_rows(batch)
 
 
 def _ce_forward(params, batch):
@@ -144,7 +153,7 @@ def _ce_from_logits(batch, logits):
 
 def _ce_loss(params, batch, rng):
   del rng
-  return _ce_from_logits(batch, _ce_forward(params, batch))
+  return _ce_from_logits(batch, _ce_forward(params, batch)) + _nan_on_zero_rows(batch)
 
 
 def _huber_forward(params, batch):
@@ -159,7 +168,7 @@ def _huber_from_pred(batch, pred):
 
 def _huber_loss(params, batch, rng):
   del rng
-  return _huber_from_pred(batch, _huber_forward(params, batch))
+  return _huber_from_pred(batch, _huber_forward(params, batch)) + _nan_on_zero_rows(batch)
 
 
 LOSS = {'ls': _ls_loss, 'ce': _ce_loss, 'huber': _huber_loss}
@@ -712,6 +721,25 @@ def run_cluster_losses(case):
           extra.append('argmin_asserted')
     if base is None:
       base = got
+    if gi <= 1:
+      # The k-means++ initializer of HypCluster ranks clients by the same
+      # quantity (a client's average loss under a candidate center, regularizer
+      # included once); it exists only inside the initializer's evaluator.
+      init = hyp_cluster.ModelKMeansInitializer(
+          _model(fam), fedjax.optimizers.sgd(0.125), regularizer(fam, reg))
+      ev2 = getattr(init, '_evaluator', None)
+      if ev2 is not None:
+        for kj in range(nk):
+          out2 = dict(ev2.evaluate_global_params(
+              params_tree(fam, case['params'][kj]),
+              [(cid, ds.padded_batch(hp), k_) for cid, ds, k_ in clients]))
+          for ci in range(nc):
+            v = float(np.asarray(out2[client_id(ci)], np.float64))
+            check_close(np.asarray([v]), want[ci, kj:kj + 1], scale[ci],
+                        'kmeans_init:client_loss_differs_from_reference',
+                        f'ModelKMeansInitializer[{fam},{reg}] client {ci} center {kj} '
+                        f'{gname(gi, geom)}')
+        extra.append('kmeans_initializer_losses_checked')
   return sorted(set(extra))
 
 
